@@ -395,6 +395,9 @@ func (c *Ctx) c12LiteralForms() {
 		{"type P struct {\n\tX int\n\tY int\n}\np := &P{1, 2}\nprintln(p.X, p.Y)", "1 2\n"},
 		{"type P struct {\n\tX int\n\tY int\n}\nps := []*P{{3, 4}, {Y: 5}}\nprintln(ps[0].X, ps[0].Y, ps[1].X, ps[1].Y)", "3 4 0 5\n"},
 		{"type P struct {\n\tX int\n\tY int\n}\nfunc mk() *P {\n\treturn &P{7, 8}\n}\nprintln(mk().Y)", "8\n"},
+		// a type declared inside a function is that function's type before and after a function literal in the body
+		{"type P struct {\n\tX int\n\tY int\n}\nfunc f() {\n\ttype P struct {\n\t\tX float64\n\t}\n\ta := &P{X: 1}\n\tdbl := func(k int) int {\n\t\treturn k * 2\n\t}\n\tb := &P{}\n\tb.X = 1\n\tprintln(a.X/2, b.X/2, dbl(2))\n\tprintln(b)\n}\nf()\nprintln(&P{X: 3})", "0.5 0.5 4\n&{X:1}\n&{X:3 Y:0}\n"},
+		{"type Q struct {\n\tN int\n}\nfunc (q *Q) M() int {\n\ttype Q struct {\n\t\tS string\n\t}\n\tcb := func() {\n\t}\n\tcb()\n\tl := &Q{S: \"s\"}\n\treturn len(l.S) + q.N\n}\nprintln((&Q{N: 4}).M())", "5\n"},
 		// keyed and positional elements in one literal: Go's value or a rejection, never another value
 		{"s := []int{5, 2: 7}\nprintln(len(s), s[0], s[1], s[2])", "3 5 0 7\n"},
 		{"s := []int{1: 7, 8}\nprintln(len(s), s[0], s[1], s[2])", "3 0 7 8\n"},
